@@ -152,6 +152,13 @@ CLAIMED = {
         'and, under each key, exactly the rows of that slice in order.',
         'Aggregates collect the rows they are fed; rows are (a, b) pairs of small ints.',
         '5/C02'),
+    'C03': (
+        'TLA+ spec ExecStrategy.tla (shards x worker threads over the transcribed interval arithmetic, every arrival order an interleaving) model-checked by TLC; the same pipelines run on the real code under every strategy of the bounded universe and compared with the sequential fused run',
+        'TLC checks that shard and thread intervals partition the source, nothing is invented or delivered twice at any point, final multisets of outputs and merged aggregate equal the sequential run, a single worker keeps the order, and termination, for every interleaving of up to 3 shards x 3 threads over <=6 rows. '
+        'On the real code 4 programs x 2 source kinds (SequenceDataSource, ShardedIterable) x sizes 0..7 (0..11) run under: num_threads 0-3, chains of two named stages split at every position with threads per stage, the interleaved in-process runner, 1-4 shards merged with merge_states, shards combined with threads; '
+        'outputs and aggregate compared as multisets (exact order for single-worker strategies).',
+        'Threaded strategies run on real threads, repeated 2-8 times (schedules sampled); arrival orders are enumerated only at the design level.',
+        '5/C03'),
 }
 
 PENDING = {}
